@@ -74,6 +74,11 @@ def gen(rng, tier):
             else:
                 ops.append(['adv', rng.choice([0.5, 1.5, 4.0])])
         ops.append(['settle'])
+    if len(nss) > 1 and rng.random() < 0.35:
+        # the server ends ONE of the client's namespaces in mid-history:
+        # what is outstanding on the others is not touched by that
+        ops.insert(rng.randrange(len(ops) // 3, len(ops) + 1),
+                   ['sdisc_ns', rng.choice(nss)])
     ops.append(['adv', 5.0])
     return {'cfg': cfg, 'registry': reg, 'shapes': shapes, 'ops': ops}
 
@@ -201,10 +206,23 @@ def _run(case, cfg, w):
         mark_rx = len(ss.rx)
 
     burst_n = 0
+    gone_ns = set()
     for opi, op in enumerate(case['ops']):
         k = op[0]
         where = 'op%d %s' % (opi, op)
-        if k == 'settle':
+        if k in ('sev', 'emit_cb', 'call', 'sack') and op[1] in gone_ns:
+            continue
+        if k == 'sdisc_ns':
+            ns = op[1]
+            w.settle(horizon=0.05)
+            learn_ids(where)
+            ss.send_pkt(sio.DISCONNECT, ns, None, None)
+            w.settle(horizon=0.05)
+            gone_ns.add(ns)
+            outstanding.pop(ns, None)
+            w.rec.count('fault.server_ends_one_namespace')
+            nontrivial = True
+        elif k == 'settle':
             w.settle(horizon=0.1)
             learn_ids(where)
             if burst_n >= 2:
